@@ -35,6 +35,14 @@
 (* (pinned tree, repaired: under id_encoding an ID given as a LITERAL in   *)
 (* the query is not decoded, only IDs given through variables are).        *)
 (*                                                                         *)
+(* 4. RESOLVER OUTCOMES: a resolver that raises, under error_handler unset *)
+(* (GraphQL error), None (the error is discarded, the field is null and    *)
+(* its type nullable) or a custom handler (its result is serialized), for  *)
+(* synchronous and asynchronous resolvers / handlers.  Deviation           *)
+(* "asyncunhandled" (pinned tree, repaired): the handler only guarded the  *)
+(* CALL of the resolver, so the exception of an async resolver, raised     *)
+(* when the coroutine is awaited, never reached it.                        *)
+(*                                                                         *)
 (* ID types: TId is apischema.graphql.ID, TUid a NewType over str listed   *)
 (* in id_types: both are the GraphQL scalar ID.  IdEnc says whether the     *)
 (* schema was built with id_encoding = (IdDecode, IdEncode): output IDs    *)
@@ -262,4 +270,21 @@ ArgM(M, p, sup, ch) ==
                          IF r.kind = "error" /\ "ehcatchesargs" \in Deviations /\ p.eh # "unset"
                          THEN [kind |-> "handled", v |-> DNull] ELSE r
           ELSE IF optParam /\ required THEN ArgOk(DNull) ELSE PyDefault
+
+---------------------------------------------------------------------------
+\* 4. RESOLVER OUTCOMES
+\* r == [t, out : "ok" | "raise", v, eh : "unset" | "none" | "custom", mode, hmode : "sync" | "async"]
+\* the custom handler of the pool is annotated -> int and returns HandlerValue
+HandlerValue == DInt(0 - 1)
+ResTy(r) == Render(IF r.eh = "none" THEN [Ty(r.t, "out") EXCEPT !.nn = FALSE] ELSE Ty(r.t, "out"))
+ResErr == [kind |-> "error", v |-> DNull]
+ResR(M, r) ==
+  IF r.out = "ok" THEN ArgOk(GSer(M, r.t, r.v))
+  ELSE CASE r.eh = "unset"  -> ResErr
+         [] r.eh = "none"   -> ArgOk(DNull)
+         [] r.eh = "custom" -> ArgOk(HandlerValue)
+\* Layer M: resolve() -- try: serialize_result(func(..)) except: serialize_error(handler(..)); for an async
+\* resolver func(..) only CREATES the coroutine
+ResM(M, r) ==
+  IF r.out = "raise" /\ r.mode = "async" /\ "asyncunhandled" \in Deviations THEN ResErr ELSE ResR(M, r)
 =============================================================================
